@@ -564,6 +564,12 @@ func (sp *subProcess) run(ctx context.Context, out tracing.ITracer) {
 					sp.active.Add(1)
 					defer sp.active.Add(-1)
 
+					// subscribe before starting: traces the inner flows emit
+					// before the subscription exists are never relayed to the
+					// parent (in the worst case an inner task request is lost)
+					traces := sp.subTracer.Subscribe()
+					defer sp.subTracer.Unsubscribe(traces)
+
 					if err := sp.startAll(ctx); err != nil {
 						subProcessId := ""
 						if pid, present := sp.element.Id(); present {
@@ -575,9 +581,6 @@ func (sp *subProcess) run(ctx context.Context, out tracing.ITracer) {
 						}})
 						return
 					}
-
-					traces := sp.subTracer.Subscribe()
-					defer sp.subTracer.Unsubscribe(traces)
 				loop:
 					for {
 						var trace tracing.ITrace
